@@ -6,15 +6,63 @@ import random
 from harness import aggfam, core, gen
 from harness.core import llit, qlit, slit, zlit
 
-IMPORTS = "From Coq Require Import ZArith QArith List String.\nImport ListNotations.\nFrom Elex Require Import Base.Frame Model.GaussAssign.\n"
+IMPORTS = "From Coq Require Import ZArith QArith List String.\nImport ListNotations.\nFrom Elex Require Import Base.Frame Base.Loss Model.GaussAssign Model.WMedian.\n"
 
 RULE = ("gaussian get_estimates runs over group structures (1-3 states, 2-5 counties per state, optional districts = 3 aggregate levels; 14-260 units so "
         "that groups hold 0, fewer than 10, or >= 10 calibration units, total calibration below and above 10; groups present only among nonreporting "
         "units; levels 0.7/0.9); per aggregate call the calibration frame, the nonreporting groups and the matched model rows are captured; the level "
-        "whose calibration statistics (weighted-median centres, variance inflation, seeded bootstrapped scale -- recomputed with the repository's own "
-        "functions) equal the matched row's is compared inside Coq with assign / rule; each group with outstanding units must have exactly one row "
+        "whose calibration statistics (weighted-median centres, variance inflation, seeded bootstrapped scale -- recomputed independently of the "
+        "repository's math_utils, centres and inflation also inside Coq) equal the matched row's is compared inside Coq with assign / rule; each group with outstanding units must have exactly one row "
         "with finite statistics, and the reported bounds must equal the formula on that row. distinct = (office, aggregate list, threshold, "
         "levels used); non-trivial = an aggregate call in which at least two different levels are used")
+
+
+
+def twin_wmedian(x, w):
+    """math_utils.weighted_median re-stated on exact rationals; returns the set of acceptable values (more than one only when a
+    cumulative weight is within 1e-9 of one half, where binary64 may fall on either side)"""
+    from fractions import Fraction as F
+    pairs = sorted(((F(float(a)), F(float(b))) for a, b in zip(x, w)), key=lambda t: t[0])
+    T = sum(b for _, b in pairs)
+    out = set()
+    for mode in ("exact", "lt", "eq", "gt"):
+        prev, acc, res = None, F(0), None
+        for a, b in pairs:
+            c = acc + b
+            d = 2 * c - T
+            k = (d > 0) - (d < 0)
+            if mode != "exact" and abs(d) <= F(1, 10**9) * T:
+                k = {"lt": -1, "eq": 0, "gt": 1}[mode]
+            if k > 0:
+                res = (prev[0] + a) / 2 if (prev is not None and prev[1] == 0) else a
+                break
+            prev, acc = (a, k), c
+        if res is not None:
+            out.add(float(res))
+    return out
+
+
+def twin_inflate(w):
+    from fractions import Fraction as F
+    ws = [F(float(a)) for a in w]
+    return float(sum(a * a for a in ws) / (sum(ws) ** 2))
+
+
+def twin_boot_sigma(data, conf, winsorize, seed):
+    """math_utils.boot_sigma re-stated: upper end of scipy's basic bootstrap interval of the (winsorized) sample standard deviation"""
+    import numpy as np
+    from scipy.stats import bootstrap
+    from scipy.stats.mstats import winsorize as wz
+
+    def std(x, axis):
+        return np.std(x, ddof=1, axis=-1)
+
+    def wstd(x, axis):
+        return np.std(wz(x, limits=(0.05, 0.05), axis=-1).data, ddof=1, axis=-1)
+
+    return bootstrap(data.reshape(1, -1), wstd if winsorize else std, confidence_level=conf, method="basic", n_resamples=10000,
+                     random_state=seed).confidence_interval.high
+
 
 BASECOL = {"dem": "baseline_dem", "gop": "baseline_gop", "turnout": "baseline_turnout"}
 
@@ -73,6 +121,7 @@ def worker(job):
         for m in mb:
             rows_by_group.setdefault(tuple(m[c] for c in agg), []).append(m)
         T = min(10, len(conf))
+        twin_cache, coq_sets = {}, set()
         used_levels = set()
         checks = []
         check_labels = []
@@ -90,23 +139,32 @@ def worker(job):
                 res["s"].append({"what": f"aggregate {agg}: group {g} is matched with a model row of non-finite statistics {stats_row}", "kind": "non-finite"})
                 continue
             levels = []
+            stat_by_level = {}
+            mp_ = p.get("model_parameters", {})
+            close = lambda a, b: abs(a - b) <= 1e-10 * max(1.0, abs(b))  # noqa: E731
             for j in range(k, -1, -1):
                 sub = [r for r in conf if [r[c] for c in agg[:j]] == g[:j]]
                 if not sub:
                     continue
-                w = np.array([r[wcol] for r in sub], dtype=float)
-                lb = np.array([r["lower_bounds"] for r in sub], dtype=float)
-                ub = np.array([r["upper_bounds"] for r in sub], dtype=float)
-                vi = math_utils.compute_inflate(w)
-                mul = math_utils.weighted_median(lb, w / np.sum(w))
-                muu = math_utils.weighted_median(ub, w / np.sum(w))
-                close = lambda a, b: abs(a - b) <= 1e-10 * max(1.0, abs(b))  # noqa: E731
-                if close(vi, m["var_inflate"]) and close(mul, m["mu_lower_bound"]) and close(muu, m["mu_upper_bound"]):
-                    if len(sub) >= 2:
-                        mp_ = p.get("model_parameters", {})
-                        sg = mp_.get("beta", 1) * math_utils.boot_sigma(lb, conf=q, winsorize=mp_.get("winsorize", False), random_state=cp["seed"])
-                        if not close(float(sg), m["sigma_lower_bound"]):
-                            continue
+                key_ = tuple(i for i, r in enumerate(conf) if [r[c] for c in agg[:j]] == g[:j])
+                if key_ not in twin_cache:
+                    w = np.array([r[wcol] for r in sub], dtype=float)
+                    lb = np.array([r["lower_bounds"] for r in sub], dtype=float)
+                    ub = np.array([r["upper_bounds"] for r in sub], dtype=float)
+                    # independent re-statements of math_utils (not the repository's functions): exact weighted median / inflation,
+                    # scipy's seeded basic bootstrap for the scale
+                    twin_cache[key_] = {"vi": twin_inflate(w), "mul": twin_wmedian(lb, w), "muu": twin_wmedian(ub, w), "sgl": None, "sub": sub}
+                tw = twin_cache[key_]
+                ok_stats = {"variance inflation": close(tw["vi"], m["var_inflate"]),
+                            "lower centre (weighted median)": any(close(v, m["mu_lower_bound"]) for v in tw["mul"]),
+                            "upper centre (weighted median)": any(close(v, m["mu_upper_bound"]) for v in tw["muu"])}
+                if all(ok_stats.values()) and len(sub) >= 2:
+                    if tw["sgl"] is None:
+                        lb = np.array([r["lower_bounds"] for r in sub], dtype=float)
+                        tw["sgl"] = float(twin_boot_sigma(lb, q, mp_.get("winsorize", False), cp["seed"]))
+                    ok_stats["lower scale (beta x seeded basic-bootstrap upper end of the sample standard deviation)"] = close(mp_.get("beta", 1) * tw["sgl"], m["sigma_lower_bound"])
+                stat_by_level[j] = (ok_stats, tw, key_)
+                if all(ok_stats.values()):
                     levels.append(j)
             # python twin of the rule
             want = 0
@@ -117,8 +175,22 @@ def worker(job):
             used_levels.add(want)
             if want not in levels:
                 own = len([r for r in conf if [r[c] for c in agg] == g])
+                wrong = [n for n, v in stat_by_level.get(want, ({}, None, None))[0].items() if not v]
                 res["s"].append({"what": f"aggregate {agg}, group {g} ({own} own calibration units, threshold {T}): the interval uses the calibration statistics of level(s) "
-                                         f"{levels or 'none of its own ancestors'}, the rule says level {want} (0 = all units, {k} = the group itself)", "kind": "wrong-calibration-set"})
+                                         f"{levels or 'none of its own ancestors'}, the rule says level {want} (0 = all units, {k} = the group itself); statistics of the model row "
+                                         f"that differ from those of the rule's calibration set: {wrong}", "kind": "wrong-calibration-set"})
+            elif stat_by_level[want][2] not in coq_sets and len(coq_sets) < 6:
+                # the same statistics inside Coq (Model/WMedian.v) on the exact values of the rule's calibration set
+                _, tw, key_ = stat_by_level[want]
+                coq_sets.add(key_)
+                sub = tw["sub"]
+                wl = [qlit(r[wcol]) for r in sub]
+                checks.append(f"check_inflate {llit(wl)} {qlit(m['var_inflate'])}")
+                check_labels.append(f"{agg}|{g}|inflation")
+                for side, col in (("lower", "lower_bounds"), ("upper", "upper_bounds")):
+                    obs = llit([f"({a}, {qlit(r[col])})" for a, r in zip(wl, sub)])
+                    checks.append(f"check_wmedian {obs} {qlit(m[f'mu_{side}_bound'])}")
+                    check_labels.append(f"{agg}|{g}|{side}-centre")
             checks.append(f"check_assign {k}%nat conf nu {llit([slit(x) for x in g])} {llit([f'{j}%nat' for j in levels])}")
             check_labels.append(f"{agg}|{g}")
         # reported bounds equal the formula on the matched row:
@@ -170,7 +242,7 @@ def worker(job):
 def run(chk):
     ok, rep = chk.proofs()
     chk.assumptions += ["_fit statistics, norm.ppf and scipy's bootstrap are oracles; the calibration set used by the implementation is identified through its statistics "
-                        "recomputed with the repository's own functions (1e-10 relative); indistinguishable candidate levels are all accepted"]
+                        "recomputed with independent re-statements of math_utils (exact weighted median and inflation, scipy's seeded basic bootstrap; 1e-10 relative) and, for up to six sets per aggregate call, inside Coq (check_wmedian / check_inflate); indistinguishable candidate levels are all accepted"]
     rng = random.Random(chk.seed * 907 + 15)
     jobs = []
     sizes = [14, 24, 60, 120, 200, 260] if chk.tier == "quick" else [14, 18, 24, 40, 60, 90, 120, 160, 200, 260] * 4
